@@ -58,10 +58,11 @@ const (
 	c15Cur
 	c15View
 	c15Fn
+	c15Agg // a user-defined aggregate function (declared into the same block map as scalar functions, by its own statement)
 	c15Kinds
 )
 
-var c15KindName = []string{"var", "cursor", "view", "func"}
+var c15KindName = []string{"var", "cursor", "view", "func", "aggr"}
 
 const (
 	c15Leaf = iota
@@ -140,7 +141,7 @@ type c15Node struct {
 
 func c15Leaves(kind int) []c15Sym {
 	out := []c15Sym{{c15Leaf, opD, kind}}
-	if kind != c15Fn {
+	if kind != c15Fn && kind != c15Agg {
 		out = append(out, c15Sym{c15Leaf, opS, kind})
 	}
 	return append(out, c15Sym{c15Leaf, opP, kind}, c15Sym{c15Leaf, opX, kind})
@@ -204,6 +205,7 @@ const (
 	c15C = "c" // the cursor
 	c15T = "t" // the temporary table
 	c15F = "f" // the function
+	c15G = "ga" // the aggregate function
 )
 
 // c15LeafStmts renders one object leaf; k makes every declared/assigned value unique to its statement.
@@ -239,6 +241,15 @@ func c15LeafStmts(kind, op int, k int64) []*sm.Stmt {
 			return []*sm.Stmt{{Op: sm.SPrint, E: sm.ViewVal(c15T)}}
 		}
 		return []*sm.Stmt{{Op: sm.SDispView, Name: c15T}}
+	}
+	if kind == c15Agg {
+		switch op {
+		case opD:
+			return []*sm.Stmt{{Op: sm.SAgg, Name: c15G, Into: "pc", Body: []*sm.Stmt{{Op: sm.SReturn, E: sm.C(k)}}}}
+		case opP:
+			return []*sm.Stmt{{Op: sm.SPrint, E: sm.AggCall(c15G)}}
+		}
+		return []*sm.Stmt{{Op: sm.SDispFunc, Name: c15G}}
 	}
 	switch op {
 	case opD:
@@ -1106,7 +1117,7 @@ func c15TextReplay(raw json.RawMessage) bool {
 }
 
 func c15Replay(c *core.Ctx, payload json.RawMessage) {
-	if c15DefaultsReplay(c, payload) || c15ConcurrentReplay(c, payload) {
+	if c15DefaultsReplay(c, payload) || c15ConcurrentReplay(c, payload) || c15ContextReplay(c, payload) {
 		return
 	}
 	if c15TextReplay(payload) {
